@@ -47,13 +47,13 @@ def order_sensitive(o):
 
 def gen_native_cases(ctx):
     cases = []
-    per_op = 170 if ctx.quick() else None
+    per_op = 130 if ctx.quick() else 1500
     kinds = list(KINDS)
     for op, (_, ar) in OPS.items():
         if ar == 1:
             cases += [(op, [a]) for a in ALL]
             continue
-        if per_op is None:
+        if per_op >= len(ALL) ** 2:
             cases += [(op, [a, b]) for a in ALL for b in ALL]
             continue
         seen = set()
@@ -87,7 +87,7 @@ def gen_cmd_cases(ctx):
     targets = LISTS_WF + [I(1), S("a"), L([(None, "a", 1)])]
     pool = [(t, a, b) for t in targets for a in bounds for b in bounds]
     if ctx.quick():
-        pool = ctx.rng.sample(pool, 250)
+        pool = ctx.rng.sample(pool, 180)
     for t, a, b in pool:
         out.append(("range", [op_json(t), op_json(a), op_json(b), "range"],
                     lambda oo, t=t, a=a, b=b: f"run_list_range {oo} fo defs {op_coq(t)} {op_coq(a)} {op_coq(b)}", 42))
@@ -105,6 +105,45 @@ def gen_cmd_cases(ctx):
     return out
 
 
+# ---------------------------------------------------------------- compile + play
+INK_BIN = {"NAdd": "+", "NSubtract": "-", "NMultiply": "*", "NDivide": "/", "NMod": "%", "NEqual": "==",
+           "NNotEquals": "!=", "NGreater": ">", "NLess": "<", "NGreaterEq": ">=", "NLessEq": "<=", "NAnd": "and",
+           "NOr": "or", "NHas": "?", "NHasnt": "!?"}
+INK_FUN2 = {"NMin": "MIN", "NMax": "MAX", "NPow": "POW"}
+INK_UN = {"NNegate": "-({})", "NNot": "not ({})", "NFloor": "FLOOR({})", "NCeiling": "CEILING({})",
+          "NInt": "INT({})", "NFloat": "FLOAT({})"}
+INK_LITS = ([("i", n) for n in (0, 1, 2, 3, 7, 10, 46341, 65536, 2147483647)]
+            + [("f", x) for x in (0.5, 1.5, 2.25, 3.0, 0.0, 1024.0, 16777216.0)]
+            + [("b", True), ("b", False)] + [("s", x) for x in ("a", "ab", "b", "12", "")])
+
+
+def gen_expr(rng, depth):
+    """(ink text, Gallina expr) of a random expression tree; nested operands are parenthesised, so the
+    stream exercises literal / operator / function emission and the runtime, not operator precedence"""
+    if depth == 0 or rng.random() < 0.25:
+        k, v = rng.choice(INK_LITS)
+        if k == "i": return str(v), f"(ELit (SInt ({v})%Z))"
+        if k == "f": return repr(v), f"(ELit (SFloat {nc.f32bits(v)}%Z))"
+        if k == "b": return ("true" if v else "false"), f"(ELit (SBool {'true' if v else 'false'}))"
+        return '"' + v + '"', f"(ELit (SStr {vlib.text2coq(v)}))"
+    r = rng.random()
+    if r < 0.2:
+        op = rng.choice(list(INK_UN))
+        t, c = gen_expr(rng, depth - 1)
+        return INK_UN[op].format(t), f"(EUn {op} {c})"
+    if r < 0.3:
+        op = rng.choice(list(INK_FUN2))
+        # powf is an oracle whose table is filled from the operands: POW only on literals
+        d = 0 if op == "NPow" else depth - 1
+        ta, ca = gen_expr(rng, d)
+        tb, cb = gen_expr(rng, d)
+        return f"{INK_FUN2[op]}({ta}, {tb})", f"(EBin {op} {ca} {cb})"
+    ta, ca = gen_expr(rng, depth - 1)
+    tb, cb = gen_expr(rng, depth - 1)
+    op = rng.choice(list(INK_BIN))
+    return f"({ta}) {INK_BIN[op]} ({tb})", f"(EBin {op} {ca} {cb})"
+
+
 def gen_chain_cases(ctx):
     """(list op1 x) op2 — two chained operators: the intermediate result goes through
     push_evaluation_stack (origin recomputation) like in a real expression"""
@@ -115,7 +154,7 @@ def gen_chain_cases(ctx):
     pool = [(a, op1, b, op2) for a in LISTS_WF for (op1, b) in firsts for op2 in seconds]
     must = [(a, "NSubtract", a, op2) for a in LISTS_WF[3:8] for op2 in ("NAll", "NInvert")]
     if ctx.quick():
-        pool = ctx.rng.sample(pool, 350)
+        pool = ctx.rng.sample(pool, 220)
     return must + pool
 
 
@@ -168,7 +207,7 @@ def run(ctx):
 
     mism, order_dep, spec_fail = [], [], []
     suspected = {}
-    n_native = n_cmd = n_f32 = n_spec = n_chain = 0
+    n_native = n_cmd = n_f32 = n_spec = n_chain = n_ink = 0
     tables = {}
     cases = []
     try:
@@ -182,7 +221,8 @@ def run(ctx):
         cases = gen_native_cases(ctx)
         n_native = len(cases)
         impl = nc.run_impl([story_json(native_content(op, args)) for op, args in cases], exe, "n")
-        fo, tables = nc.oracle_tables(cases)
+        lits = [I(v) if k == "i" else F(v) if k == "f" else B(v) if k == "b" else S(v) for k, v in INK_LITS]
+        fo, tables = nc.oracle_tables(cases + [("NPow", [a, b]) for a in lits for b in lits])
         pre = fo + f"Definition defs : listdefs := {defs_coq()}.\n"
         exprs, sidx, sexprs = [], [], []
         for k, (op, args) in enumerate(cases):
@@ -221,19 +261,26 @@ def run(ctx):
                 hexprs.append(f"all_orders (fun oo => {body})")
             else:
                 hexprs.append(f"(fun oo => {body}) ord_id")
+        # compile + play: A{expr}B through the real compiler and runtime vs spec_eval on the source tree
+        inks = [gen_expr(ctx.rng, 3) for _ in range(300 if ctx.quick() else 6000)]
+        kres = vlib.run_inkdrive([{"id": f"k{k}", "ink": "A{" + t + "}B\n", "script": [["CONT"]]}
+                                  for k, (t, _) in enumerate(inks)], exe)
+        kimpl = [("compile:" + str(r.get("compile"))) if r.get("compile") != "ok" else nc.outcome(r) for r in kres]
+        kexprs = [f"run_spec_expr fo {c}" for _, c in inks]
         timing["impl"] = round(time.time() - T0, 1)
 
         # ---- the four model batches, concurrently
         f_f32 = pool.submit(f32_tie, ctx)
         f_nat = pool.submit(nc.run_model, exprs, pre, "c07n")
-        f_spec = pool.submit(vlib.coq_eval_sharded, nc.PREAMBLE + "From Ink.Spec Require Import SpecRun.\n" + pre,
-                             sexprs, 300, "c07s")
+        f_spec = pool.submit(vlib.coq_eval_sharded, nc.PREAMBLE + "From Ink.Spec Require Import ExprSpec SpecRun.\n" + pre,
+                             sexprs + kexprs, 300, "c07s")
         f_cmd = pool.submit(nc.run_model, cexprs + hexprs, pre + rngt, "c07c")
         n_f32, badf = f_f32.result()
         for bd in badf:
             mism.append(dict(stream="f32", **bd))
         model = nc.resolve_sentinels(f_nat.result())
         smodel = nc.resolve_sentinels(f_spec.result())
+        smodel, kmodel = smodel[:len(sexprs)], smodel[len(sexprs):]
         cmodel = nc.resolve_sentinels(f_cmd.result())
         cmodel, hmodel = cmodel[:len(cmds)], cmodel[len(cmds):]
         pool.shutdown()
@@ -275,11 +322,16 @@ def run(ctx):
                     reference="the declared items of x's origin lists (InkList copy constructor keeps originNames)",
                     patch="pending/native-3-origins.patch"))
         n_chain = len(chains)
+        # compile + play against the specification on the source tree (property-direct)
+        for (t, c), i, m in zip(inks, kimpl, kmodel):
+            n_ink += 1
+            if i != m:
+                spec_fail.append(dict(op="ink", ink="A{" + t + "}B", impl=i, spec=m))
     except RuntimeError as e:
         mism.append(dict(stream="model-does-not-evaluate", err=str(e)[-600:]))
 
     ctx.coverage.update(dict(
-        evaluations=n_native + n_cmd + n_f32 + n_spec + n_chain,
+        evaluations=n_native + n_cmd + n_f32 + n_spec + n_chain + n_ink,
         distinct_nontrivial=n_native + n_cmd + n_chain,
         rule="31 native operators x operand pairs drawn from 7 operand kinds (16 boundary ints incl. i32 MIN/MAX, 17 floats "
              "incl. +-0.0, 0.5, 1e9, 3e9, f32::MAX, denormal, strings incl. empty/numeric/non-ASCII, 16 well-formed lists over "
@@ -287,12 +339,15 @@ def run(ctx):
              "malformed lists, divert targets, variable pointers, Void, Glue, Tag); unary operators on every operand; "
              "listInt / range / lrnd / rnd command matrices; two-operator chains (list op list, then a unary list "
              "operator); f32 primitive operations on bit patterns; "
-             "each case = one compiled-JSON story run by the real runtime vs vm_compute of the model",
+             "each case = one compiled-JSON story run by the real runtime vs vm_compute of the model; "
+             "plus random .ink expression trees (depth <= 3, fully parenthesised, scalar literals, all operators and "
+             "built-in functions) compiled and played by the real code vs Spec.spec_eval on the source tree",
         samples=[dict(op=cases[0][0], args=cases[0][1]), dict(op=cases[len(cases) // 2][0], args=cases[len(cases) // 2][1])]
         if n_native else [],
         traces_validated_against_impl=n_native + n_cmd + n_f32 + n_chain,
         suspected_deviations_from_reference=suspected,
         compared_with_specification=n_spec,
+        ink_expressions_compiled_and_played=n_ink,
         correspondence_mismatches=len(mism),
         order_dependent_cases=len(order_dep),
         order_dependent_sample=order_dep[:3],
